@@ -58,15 +58,45 @@ def native_model(shape, seed, container="set", cse=True, transcendental=False, b
         near = {kk: (v * Fraction(1000004, 1000000) if kk not in fixed else v) for kk, v in pts[1].items()}
         near2 = {kk: (v + Fraction(1, 2**28) if kk not in fixed else v) for kk, v in near.items()}
         pts += [near, near2, pts[0]]
-        for pt in pts:
+        kept = []  # (call number, returned object, expected values): a returned state is the caller's - later calls must not change it
+        for call_no, pt in enumerate(pts):
             state = model.State(**{s.name: float(pt[s]) for s in sc.state})
             control = model.Control(**{u.name: float(pt[u]) for u in sc.control}) if k else None
             out = model.model(float(pt[sc.dt]), state, control) if k else model.model(float(pt[sc.dt]), state)
+            wants = []
             for idx, s in enumerate(model.arglist_state):
                 want = float(scenarios.exact(sc.state_model[s], pt)) if not transcendental else float(sc.state_model[s].subs({kk: float(v) for kk, v in pt.items()}))
+                wants.append(want)
                 got = float(out.data[idx, 0])
                 if abs(got - want) > 1e-9 * max(1.0, abs(want)):
                     problems.append(f"compiled model (cse={cse}, {container} containers) returns {got} for state {s.name}, its update expression evaluates to {want}")
+            for idx, s in enumerate(model.arglist_state):
+                if float(state.data[idx, 0]) != float(pt[s]):
+                    problems.append(f"compiled model (cse={cse}) changed its INPUT state {s.name} during call {call_no}")
+            kept.append((call_no, out, wants))
+        # a stepped trajectory: feed the output back in as the next input, keeping every returned state
+        traj_pt = dict(pts[0])
+        cur = model.State(**{s.name: float(traj_pt[s]) for s in sc.state})
+        for step in range(3):
+            control = model.Control(**{u.name: float(traj_pt[u]) for u in sc.control}) if k else None
+            env = {kk: float(v) for kk, v in traj_pt.items()}
+            env.update({s: float(cur.data[idx, 0]) for idx, s in enumerate(model.arglist_state)})
+            wants = [float(sc.state_model[s].subs(env)) for s in model.arglist_state]
+            nxt = model.model(float(traj_pt[sc.dt]), cur, control) if k else model.model(float(traj_pt[sc.dt]), cur)
+            for idx, s in enumerate(model.arglist_state):
+                if abs(float(nxt.data[idx, 0]) - wants[idx]) > 1e-7 * max(1.0, abs(wants[idx])):
+                    problems.append(f"compiled model (cse={cse}) fed its own previous output: returns {float(nxt.data[idx, 0])} for state {s.name} at step {step}, its update expression evaluates to {wants[idx]}")
+                    break
+            kept.append((f"trajectory step {step}", nxt, wants))
+            cur = nxt
+        for call_no, out, wants in kept:
+            for idx, s in enumerate(model.arglist_state):
+                if abs(float(out.data[idx, 0]) - wants[idx]) > 1e-7 * max(1.0, abs(wants[idx])):
+                    problems.append(f"the state returned by call {call_no} (cse={cse}) was changed by a LATER call: {s.name} now reads {float(out.data[idx, 0])}, it was returned as {wants[idx]}")
+                    break
+            else:
+                continue
+            break
     except Exception as e:
         problems.append(f"compiling/evaluating a valid model raised {type(e).__name__}: {(str(e).splitlines() or [''])[0]}")
     return problems, sc
